@@ -54,6 +54,7 @@ def rules(ctx):
     c201(ctx)
     c202(ctx)
     c203(ctx)
+    c203_departures(ctx)
     c204(ctx)
     c205(ctx)
     c206(ctx)
@@ -314,6 +315,28 @@ def c203(ctx):
 
 
 OPT_COMPACTION = re.compile(r"^core::option::Option<lsmtk::tree::Compaction>$")
+
+
+def c203_departures(ctx):
+    R = "C20.3"
+    # every way out of a function that linked into a wait list hands the head position on: a waiter sleeps until it is notified, and
+    # only a departing holder notifies -- an early error return that merely drops its guard unlinks without waking the new head
+    n = 0
+    for f in sorted(ctx.prog.fns.values(), key=lambda f: f.key):
+        if f.crate not in ("lsmtk", "sst", "sync42") or f.skey.startswith("sync42::wait_list::"):
+            continue
+        links = P.call_points(f, r"sync42::wait_list::WaitList::link$")
+        if not links:
+            continue
+        n += 1
+        nh = P.call_points_closed(ctx.prog, f, r"sync42::wait_list::WaitList::notify_head$", depth=2)
+        q = P.reach(f, [a for l_ in links for a in P.after(f, l_)], P.return_points(f), avoid=set(nh))
+        ctx.check(R, f, "every-departure-notifies", q is None and bool(nh),
+                  "every exit of %s after WaitList::link passes notify_head" % f.skey.rsplit("::", 1)[-1],
+                  "%s can return after linking into the wait list without calling notify_head (an early error return drops the guard, which unlinks "
+                  "but wakes no one): the waiter that becomes head sleeps until some later departure happens to notify it -- with no other writer, "
+                  "for ever" % f.skey, pt=q[-1][1] if q and isinstance(q[-1], tuple) else None, path=q)
+    ctx.floor(R, "functions that link into a wait list", n, 3)
 
 
 def c205(ctx):
